@@ -68,20 +68,24 @@ def r1_locks(ctx):
                            % (name(c["class"]), c["acq_mode"], c["held_local"], c["held_mode"], " ; ".join(c["via"])),
                            path=c["via"])
     ctx.floor("R09.1", "call sites executed with a live lock guard", n_sites, 20)
-    # global lock order (role-insensitive, conservative)
-    la = ctx.locks(None)
-    edges = la.order_edges()
-    cyc = find_cycles(edges)
-    ctx.extra["lock_order_edges"] = ["%s -> %s" % (name(a), name(b)) for (a, b) in sorted(edges)]
-    ctx.floor("R09.1", "lock-order edges", len(edges), 8)
-    if not cyc:
-        ctx.ob("R09.1", "lock-order-graph", True, "", "%d held->acquired edges between %d lock classes, acyclic" % (len(edges), len({x for e in edges for x in e})))
-    for cy in cyc:
-        names = [name(c) for c in cy]
-        wit = []
-        for i in range(len(cy)):
-            wit.append(edges.get((cy[i], cy[(i + 1) % len(cy)]), "?"))
-        ctx.ob("R09.1", "lock-order-cycle:" + ">".join(sorted(names)), False, "", "lock-order cycle " + " -> ".join(names), path=wit)
+    # lock order per Session role (a session object is either a client or a server session for its whole life;
+    # the role-insensitive union would join the server-only Settings arm with the client-only shaping path)
+    all_edges = set()
+    for role in ("client", "server"):
+        la = ctx.locks(role)
+        edges = la.order_edges()
+        all_edges |= set(edges)
+        cyc = find_cycles(edges)
+        ctx.floor("R09.1", "lock-order edges (%s role)" % role, len(edges), 8)
+        if not cyc:
+            ctx.ob("R09.1", "%s|lock-order-graph" % role, True, "", "%d held->acquired edges between %d lock classes, acyclic" % (len(edges), len({x for e in edges for x in e})))
+        for cy in cyc:
+            names = [name(c) for c in cy]
+            wit = []
+            for i in range(len(cy)):
+                wit.append(edges.get((cy[i], cy[(i + 1) % len(cy)]), "?"))
+            ctx.ob("R09.1", "%s|lock-order-cycle:%s" % (role, ">".join(sorted(names))), False, "", "lock-order cycle " + " -> ".join(names + names[:1]) + ": two tasks taking the locks in opposite orders block each other for ever", path=wit)
+    ctx.extra["lock_order_edges"] = sorted("%s -> %s" % (name(a), name(b)) for (a, b) in all_edges)
 
 
 def r2_flag_writer(ctx):
